@@ -423,15 +423,18 @@ func curvedFamily() fw.Family {
 	}
 }
 
-// ulpShapes: every contour with one vertex moved by one unit in the last place in x or in y
+// UlpShapes: every contour with one vertex moved by one unit in the last place in x or in y
 // (edges whose x- or y-extent is one ulp: almost vertical/horizontal segments that become exactly
 // vertical/horizontal when an intersection splits them).
-func ulpShapes(cs [][]oracle.Pt) [][][]oracle.Pt {
+func UlpShapes(cs [][]oracle.Pt) [][][]oracle.Pt {
 	var out [][][]oracle.Pt
 	for _, c := range cs {
 		for v := range c {
 			for k := 0; k < 4; k++ {
 				d := append([]oracle.Pt(nil), c...)
+				if (k < 2 && d[v].X == 0) || (k >= 2 && d[v].Y == 0) {
+					continue // the neighbours of 0 are denormal numbers: outside the bound (the oracle's orientation test underflows there)
+				}
 				switch k {
 				case 0:
 					d[v].X = math.Nextafter(d[v].X, math.Inf(1))
@@ -466,7 +469,7 @@ func families(tier string) []fw.Family {
 		family("closed walks of 4 steps revisiting a vertex (L4)", single(oracle.WalksModRotation(L4, 4)), 1, 1e-8, 1e-6, false),
 		family("closed walks of 5 steps revisiting a vertex (L3)", single(oracle.WalksModRotation(L3, 5)), 1, 1e-8, 1e-6, false),
 		family("closed walks of 6 steps revisiting a vertex (L3)", single(oracle.WalksModRotation(L3, 6)), 1, 1e-8, 1e-6, false),
-		family("quad(L3)/rot with one vertex moved by one ulp in x or y", ulpShapes(oracle.ContoursModRotation(L3, 4)), 1, 1e-8, 1e-6, false),
+		family("quad(L3)/rot with one vertex moved by one ulp in x or y", UlpShapes(oracle.ContoursModRotation(L3, 4)), 1, 1e-8, 1e-6, false),
 		family("open quad(L3)/rot (open subpaths, implicitly closed)", single(oracle.ContoursModRotation(L3, 4)), 1, 1e-8, 1e-6, true),
 	}
 	if tier == "thorough" {
